@@ -191,6 +191,22 @@ def run_family(prop, b, fam, profile, seed, tier):
     return out_file, diffs, bads, done
 
 
+def run_lines(lines, b, tag):
+    """execute explicit input lines on the current tree (both profiles) and compare with model and spec; returns DIFF dicts"""
+    tmp = os.path.join(WORK, f"{tag}_in.txt")
+    open(tmp, "w").write("\n".join(lines) + "\n")
+    diffs = []
+    for profile in ("dev", "release"):
+        rc, out = sh([bin_path(b, profile), "replay", tmp], timeout=600)
+        p = subprocess.run([DRV], input=out, stdout=subprocess.PIPE, stderr=subprocess.STDOUT, text=True)
+        for l in p.stdout.splitlines():
+            m = DIFF_RE.match(l)
+            if m:
+                diffs.append({"n": int(m.group(1)), "kind": m.group(2), "line": m.group(3), "model": m.group(4),
+                              "spec": m.group(5), "profile": profile, "bin": b})
+    return diffs
+
+
 def source_changed():
     """files of /repo/src whose content differs from the fingerprint recorded when the model was written"""
     try:
@@ -199,7 +215,7 @@ def source_changed():
         return []
     changed = []
     for name, h in fp.items():
-        path = os.path.join("/repo/src", name)
+        path = os.path.join(os.environ.get("VERIF_REPO", "/repo"), "src", name)
         try:
             cur = hashlib.sha256(open(path, "rb").read()).hexdigest()
         except OSError:
@@ -332,6 +348,23 @@ def main():
                 totals[k] += done.get(k, 0)
     if bads:
         fail_infra("protocol error between harness and driver", "\n".join(bads[:20]))
+    # 3b. the word-level kernel is tied by translation (C01 only): regenerate from utils.rs, re-check the equalities with the
+    #     model; if they no longer check, search (cvc5/z3) for words on which the new definition differs and run them through the API
+    kernel = None
+    if prop == "C01":
+        import kernel_tie
+        kernel = kernel_tie.run(WORK)
+        lean["kernel_tie"] = kernel["status"]
+        if kernel["status"] == "proved":
+            notes.append("word kernel (Integer::{mask,cadd,csub,wmul} x 6 word types): regenerated from utils.rs and proved equal to the model (24 equalities)")
+        else:
+            notes.append(f"word kernel tie by translation: {kernel['status']}; changed: {', '.join(kernel['changed'])}")
+        if kernel["status"] == "counterexample":
+            kd = run_lines(kernel["lines"], "h_core", "kernel")
+            diffs += kd
+            if not kd:
+                kernel["status"] = "broken"
+                kernel["log"] += "\nthe differing words were not observable through the public operators tried"
     total, distinct, ops, types, samples = nontrivial_stats(files)
 
     # 4. verdict
@@ -373,6 +406,14 @@ def main():
                    "more": [d["line"] for d in sorted(new_diffs, key=lambda d: len(d["line"]))[1:15]],
                    "replay_cmd": f"python3 check.py {prop} --replay {rp}"}, open(rp, "w"), indent=1)
         print(f"VIOLATION property={prop} replay={rp}" + ("" if with_input else " no-failing-input-found"))
+        violations += 1
+    if kernel and kernel["status"] == "broken" and not violations:
+        rp = os.path.join(REPLAYS, f"{prop}-kernel.json")
+        json.dump({"property": prop, "what": "the tie by translation of the word-level kernel no longer checks and was not re-established: "
+                   "the definitions regenerated from /repo/src/utils.rs are not provably equal to the model's (theorems Bva.Gen.*_eq in "
+                   "lean/BvaProofs/GenWords.lean), the solvers neither found differing words nor proved equality, and the differential run found no failing input",
+                   "theorems": ["Bva.Gen." + c + "_eq" for c in kernel["changed"]], "log": kernel["log"][-6000:]}, open(rp, "w"), indent=1)
+        print(f"VIOLATION property={prop} replay={rp} no-failing-input-found")
         violations += 1
     write_evidence(prop, tier, seed, lean, total, distinct, ops, types, samples, violations, t0, notes, totals, len(seen_known))
     if violations:
